@@ -196,6 +196,7 @@ func TestPropPrograms(t *testing.T) {
 			ev.Label("nontrivial")
 			ev.NontrivialSample(map[string]string{"kind": "program", "src": p.Src}, p.Src, c.Ctx)
 		}
+		ev.Journal("prog", c)
 		if msg := judgeProg(c); msg != "" {
 			if id := classify(msg); id != "" && ev.Known(id) {
 				return
@@ -266,6 +267,7 @@ func TestPropTemplates(t *testing.T) {
 			}
 			ev.NontrivialSample(map[string]any{"kind": "template", "files": c.Files, "types": typesOf(c.Values)}, c.Files[c.Name], strings.Join(typesOf(c.Values), ","), strings.Join(ks, "|"))
 		}
+		ev.Journal("tmpl", c)
 		if msg := judgeTmpl(c); msg != "" {
 			if id := classify(msg); id != "" && ev.Known(id) {
 				return
